@@ -157,6 +157,14 @@ pub fn run(cfg: &Cfg, rep: &mut Report) {
     rep.max("nesting_depth", depth as u64);
     let mut fixed: Vec<(String, Flags)> = scope.into_iter().map(|p| (p, fl(""))).collect();
     fixed.extend(super::diff::fixed_corpus());
+    // a class is a set: the same string reached through two operands (or two case variants of it
+    // under i) is one alternative, so a loop over such a class must not branch on it
+    for (p, f) in [
+        ("(?:[\\q{ab}\\q{ab}])*c", "v"), ("(?:[\\q{ab}[\\q{ab}]])*c", "v"), ("(?:[\\q{ab|ba}[\\q{ab}]\\q{ab}])+d$", "v"), ("(?:[\\q{ab}\\q{AB}])*c", "iv"), ("(?:[\\q{ab|AB}])*c", "iv"), ("(?:[\\q{ab}\\q{aB}\\q{Ab}])*c", "iv"),
+        ("(?:[\\q{ab}&&[\\q{ab}\\q{ab}]])*c", "v"), ("(?:[[\\q{ab}]--c][\\q{ab}]?)*c", "v"), ("(?:[a\\q{a}])*c", "v"), ("(?:[\\q{a|b}ab])*c", "v"),
+    ] {
+        fixed.push((p.to_string(), fl(f)));
+    }
     let spec = StreamSpec { n_struct: cfg.scaled(if cfg.quick() { 6_000 } else { 200_000 }), enum_nodes: if cfg.quick() { 0 } else { 3 }, enum_flags: vec![fl(""), fl("u")], tweak, fixed, templates: true };
     struct H;
     let _ = H;
@@ -186,6 +194,8 @@ impl PCheck for C05Hay {
             let mut v = crate::gen::all_strings(&['a' as u32, 'b' as u32], 4);
             v.push("aaaaaaaaaaaaaaaaaaaaaaaa".into());
             v.push("aaaaaaaaaaaaaaaaaaaaaaab".into());
+            v.push(format!("{}d", "ab".repeat(22)));
+            v.push(format!("{}d", "aB".repeat(22)));
             let _ = rng;
             Some(v)
         } else {
